@@ -103,10 +103,15 @@ impl Property for C05 {
                 insts.push(letter_inst(&mut g, l));
             }
             let bound = g.next_id + 1;
+            let generator_word = match g.rng.below(3) {
+                0 => 0,
+                1 => *g.rng.pick(&[0x0006_000eu32, 0x000f_0000, 0x0008_000b, 0xFFFF_FFFF]),
+                _ => (g.rng.below(46) as u32) << 16 | g.rng.below(32) as u32,
+            };
             return Trace {
                 header: MHeader {
                     version: 0x0001_0500,
-                    generator: 0,
+                    generator: generator_word,
                     bound,
                     schema: 0,
                 },
@@ -249,6 +254,58 @@ impl Property for C05 {
             Ok(r) => r,
             Err(pi) => return out(Some(Violation::new("C05.panic", pi.locus(), 0, pi.detail()))),
         };
+        // the same history fed to a Loader directly, with the header the binary really carries (the parser's own
+        // header drops the generator and schema words): the verdict is a function of the instruction sequence alone
+        {
+            struct Feed {
+                l: dr::Loader,
+                generator: u32,
+                schema: u32,
+            }
+            impl rspirv::binary::Consumer for Feed {
+                fn initialize(&mut self) -> rspirv::binary::ParseAction {
+                    self.l.initialize()
+                }
+                fn finalize(&mut self) -> rspirv::binary::ParseAction {
+                    self.l.finalize()
+                }
+                fn consume_header(&mut self, mut h: dr::ModuleHeader) -> rspirv::binary::ParseAction {
+                    h.generator = self.generator;
+                    h.reserved_word = self.schema;
+                    self.l.consume_header(h)
+                }
+                fn consume_instruction(&mut self, i: dr::Instruction) -> rspirv::binary::ParseAction {
+                    self.l.consume_instruction(i)
+                }
+            }
+            let mut feed = Feed { l: dr::Loader::new(), generator: t.header.generator, schema: t.header.schema };
+            let r2 = match guarded(|| rspirv::binary::parse_words(gb.words().expect("word aligned"), &mut feed)) {
+                Ok(r) => r,
+                Err(pi) => return out(Some(Violation::new("C05.panic", format!("direct-feed {}", pi.locus()), 0, pi.detail()))),
+            };
+            cov.hit("reached.direct_feed_with_real_header");
+            let same = match (&res, &r2) {
+                (Ok(m), Ok(())) => {
+                    let m2 = feed.l.module();
+                    diff_modules(&module_to_model(m), &module_to_model(&m2), false).map(|(w, d)| format!("{}: {}", w, d))
+                }
+                (Err(e1), Err(e2)) if format!("{:?}", e1) == format!("{:?}", e2) => None,
+                (a1, a2) => Some(format!(
+                    "load_words: {}, direct feed: {}",
+                    match a1 {
+                        Ok(_) => "Ok".to_string(),
+                        Err(e) => format!("{:?}", e),
+                    },
+                    match a2 {
+                        Ok(_) => "Ok".to_string(),
+                        Err(e) => format!("{:?}", e),
+                    }
+                )),
+            };
+            if let Some(d) = same {
+                return out(Some(Violation::new("C05.header-independent", format!("generator={:#x}", t.header.generator), hist.len(), format!("the same instruction history loads differently when the loader is handed the binary's own header words (generator {:#010x}, schema {}): {}", t.header.generator, t.header.schema, d))));
+            }
+        }
         let opname = |k: usize| hist.get(k).map(|i| i.name()).unwrap_or_else(|| "end-of-stream".into());
         match (expect, res) {
             (Ok(()), Ok(m)) if line_only => {
